@@ -9,7 +9,7 @@ from .c07 import mk
 from .common import loop_clean, new_loop
 
 PROPERTY = "C18"
-BUDGET_S = {"quick": 900, "thorough": 3000}
+BUDGET_S = {"quick": 900, "thorough": 7200}
 STUBS = [
     "asyncio.StreamReader: in the symbolic run a small model (feed_data, feed_eof, readexactly, at_eof: readexactly returns exactly n bytes or raises IncompleteReadError(partial, expected)); every sampled path and every counterexample is re-run on the real asyncio.StreamReader",
     "VirtualLoop; struct/bytes/enum lowering",
